@@ -49,7 +49,12 @@ MulXaiM1(e)  == /\ g' = TLCEval([r \in Rows |-> TMulXaiM1(e, g[r])])            
 DecOf(ms)    == [i \in Idx |-> m[i] % ms]                                                                     \* tGswSymDecrypt(.., Msize)
 Decrypt(ms)  == UNCHANGED <<g, m>> /\ Did([op |-> "Decrypt", ms |-> ms, dec |-> DecOf(ms)])
 FFTRound     == UNCHANGED <<g, m>> /\ Did([op |-> "FFTRound"])                                                \* tGswToFFTConvert then tGswFromFFTConvert
-ANext == \/ Clear \/ AddH \/ FFTRound
+\* the gadget added in the Lagrange domain: what comes back from tGswToFFTConvert ; tGswFFTAddH ; tGswFromFFTConvert is the register plus H,
+\* and from tGswFFTClear ; tGswFFTAddH ; tGswFromFFTConvert it is H alone (the register itself is left as it was)
+FFTAddHOf(gg) == PlaceMuH(gg, Const(1))
+FFTAddH      == UNCHANGED <<g, m>> /\ Did([op |-> "FFTAddH"])
+FFTOnlyH     == UNCHANGED <<g, m>> /\ Did([op |-> "FFTOnlyH"])
+ANext == \/ Clear \/ AddH \/ FFTRound \/ FFTAddH \/ FFTOnlyH
          \/ \E k \in 1..Len(MuPool) : AddMuH(MuP(k)) \/ Trivial(MuP(k)) \/ \E tag \in Tags : Load(k, tag)
          \/ \E v \in {-1, 2, 3} : AddMuIntH(v)
          \/ \E e \in Exps : MulXaiM1(e)
